@@ -471,9 +471,13 @@ func finish(p *Prop, tier string, seed uint64, n int, agg *Agg, wall time.Durati
 	if len(broken) > 0 {
 		cov["broken_run"] = broken
 	}
+	assume := p.Assumptions
+	if assume == nil {
+		assume = []string{}
+	}
 	ev := map[string]any{
 		"property_id": p.ID, "tier": tier, "seed": int64(seed), "level": p.Level,
-		"coverage": cov, "assumptions": p.Assumptions,
+		"coverage": cov, "assumptions": assume,
 		"wall_s":     float64(int(wall.Seconds()*10)) / 10,
 		"violations": len(order),
 	}
